@@ -10,7 +10,7 @@ if [ "$3" != "notests" ]; then
   T=$(PYTHONPATH=$W /venv/bin/python -m pytest -q -p no:cacheprovider --timeout=900 --continue-on-collection-errors 2>&1 | grep -E "passed|failed" | tail -1)
 else T="(tests not run)"; fi
 cd ${VERIF_DIR:-/verif}
-OUT=$(PYBC_REPO=$W VERIF_UNIT_TIMEOUT=${VERIF_UNIT_TIMEOUT:-400} ./check $ID 2>&1 | grep -E "^VIOLATION|^KNOWN|^INCONCLUSIVE property=$ID undecided|HARNESS-ERROR|exit=" | cut -c1-230)
+OUT=$(VERIF_EVIDENCE_DIR=${SCRATCH_EVIDENCE:-/tmp/verif-scratch-evidence} PYBC_REPO=$W VERIF_UNIT_TIMEOUT=${VERIF_UNIT_TIMEOUT:-400} ./check $ID 2>&1 | grep -E "^VIOLATION|^KNOWN|^INCONCLUSIVE property=$ID undecided|HARNESS-ERROR|exit=" | cut -c1-230)
 NV=$(echo "$OUT" | grep -c "^VIOLATION")
 EX=$(echo "$OUT" | grep -o "exit=[0-9]" | tail -1)
 cd "$W"; git checkout -q -- .
